@@ -315,6 +315,13 @@ theorem filterMap_congr' {α β} (f g : α → Option β) (l : List α) (h : ∀
     simp only [List.filterMap_cons, h x (by simp)]
     rw [ih (fun y hy => h y (List.mem_cons_of_mem _ hy))]
 
+theorem find?_congr' {α} (p q : α → Bool) (l : List α) (h : ∀ x ∈ l, p x = q x) : l.find? p = l.find? q := by
+  induction l with
+  | nil => rfl
+  | cons x xs ih =>
+    simp only [List.find?_cons, h x (by simp)]
+    rw [ih (fun y hy => h y (List.mem_cons_of_mem _ hy))]
+
 theorem nodup_of_map {α β} (f : α → β) (l : List α) (h : (l.map f).Nodup) : l.Nodup := by
   induction l with
   | nil => simp
